@@ -93,9 +93,16 @@ def select(seq: SeqV, idx_term):
     return mk(ek, z3.Select(arr, idx_term)) if ek != "float" else Sym("float", z3.Select(arr, idx_term))
 
 
-def get(path, seq: SeqV, idx):
-    """seq[idx] with Python index rules; forks on bounds when symbolic."""
+def get(path, seq: SeqV, idx, unchecked=False):
+    """seq[idx] with Python index rules; forks on bounds when symbolic.
+
+    unchecked (specification context only): a symbolic index is read without bounds test - out-of-range reads give an
+    unspecified value instead of forking into IndexError paths; specs guard their indices by their quantifier ranges."""
     n = length(seq)
+    if unchecked and not (isinstance(idx, int) and seq.items is not None):
+        if seq.items is not None and (seq.elem or elem_kind_of_items(seq.items)) is None:
+            raise Unsupported("symbolic index into heterogeneous sequence")
+        return _as_elem(seq, select(seq, z3.simplify(to_term(idx, "int"))))
     if isinstance(idx, bool):
         idx = int(idx)
     if isinstance(idx, int) and isinstance(n, int) and seq.items is not None:
@@ -134,11 +141,25 @@ def clamp_slice(seq: SeqV, lo, hi):
         lo2, hi2, _ = slice(lo, hi).indices(n)
         return lo2, max(hi2, lo2)
     nt = len_term(seq)
-    lot = z3.IntVal(0) if lo is None else to_term(lo, "int")
-    hit = nt if hi is None else to_term(hi, "int")
-    lot = z3.If(lot < 0, z3.If(lot + nt < 0, 0, lot + nt), z3.If(lot > nt, nt, lot))
-    hit = z3.If(hit < 0, z3.If(hit + nt < 0, 0, hit + nt), z3.If(hit > nt, nt, hit))
-    hit = z3.If(hit < lot, lot, hit)
+
+    def clamp(v, default):
+        if v is None:
+            return default
+        if isinstance(v, int) and not isinstance(v, bool):
+            if v == 0:
+                return z3.IntVal(0)
+            if v > 0:
+                return z3.If(nt < v, nt, z3.IntVal(v))
+            return z3.If(nt + v < 0, z3.IntVal(0), nt + v)
+        t = to_term(v, "int")
+        return z3.If(t < 0, z3.If(t + nt < 0, 0, t + nt), z3.If(t > nt, nt, t))
+
+    lot = clamp(lo, z3.IntVal(0))
+    hit = clamp(hi, nt)
+    if not (lo is None or (isinstance(lo, int) and lo == 0)) and hi is not None:
+        hit = z3.If(hit < lot, lot, hit)
+    elif lo is not None and not (isinstance(lo, int) and lo == 0):
+        hit = z3.If(hit < lot, lot, hit)
     return z3.simplify(lot), z3.simplify(hit)
 
 
@@ -157,6 +178,22 @@ def slice_(seq: SeqV, lo, hi):
     i = z3.Int("sl!i")
     narr = z3.Lambda([i], z3.Select(arr, i + lot))
     return SeqV(seq.kind, ek, arr=narr, length=newlen)
+
+
+def remove_range(seq: SeqV, lo2, hi2):
+    """seq with the (already clamped) range [lo2, hi2) removed."""
+    if isinstance(lo2, int) and isinstance(hi2, int) and seq.items is not None:
+        return SeqV(seq.kind, seq.elem, items=seq.items[:lo2] + seq.items[hi2:])
+    arr, nt, ek = as_array(seq)
+    lot = z3.IntVal(lo2) if isinstance(lo2, int) else lo2
+    hit = z3.IntVal(hi2) if isinstance(hi2, int) else hi2
+    width = z3.simplify(hit - lot)
+    i = z3.Int("rm!i")
+    if isinstance(lo2, int) and lo2 == 0:
+        narr = z3.Lambda([i], z3.Select(arr, i + width))
+    else:
+        narr = z3.Lambda([i], z3.If(i < lot, z3.Select(arr, i), z3.Select(arr, i + width)))
+    return SeqV(seq.kind, ek, arr=narr, length=z3.simplify(nt - width))
 
 
 def concat(a: SeqV, b: SeqV, kind=None):
